@@ -5,10 +5,10 @@ of /repo/enumer.go.  The model mirrors what the code does, quirks included:
   makeStr      the stringer-style loop over the ValueSpecs of every const block (`typ` carry-down,
                reset on "no type but a value", `_` skipped), the value of each name taken from
                go/types (an input here), stored as its unsigned 64-bit pattern;
-  sort.Slice   by that UNSIGNED key (negatives sort after positives);
-  tables       NameList, valueof = int64(u64) (values > MaxInt64 print negative), strof = TrimPrefix;
-  template     `_ = x[Name-valueof]` (a negative valueof gives `x[Name--1]`: gofmt rejects the file,
-               shoot exits 1), `_t_values`, `_t_strings`, `_t_string_map`, `_t_value_map` (map literals:
+  sort.Slice   by `int64(value)` for signed types, by the unsigned pattern for unsigned types;
+  tables       NameList, valueof = the value printed by its own signedness (FormatInt(int64(v)),
+               parenthesised when negative, for signed types; FormatUint(v) for unsigned), strof = TrimPrefix;
+  template     `_ = x[Name-valueof]`, `_t_values`, `_t_strings`, `_t_string_map`, `_t_value_map` (map literals:
                duplicate constant keys do not compile), `_t_max = A | B | …`, String / IsValid /
                Values / Strings / ValueMap / StringMap, the codec methods, and with -bit Has / Add /
                Remove and the composite String loop (which reads the undefined table `_t_map`).
@@ -83,8 +83,9 @@ def u64 (v : Int) : Nat := (v % 18446744073709551616).toNat
 /-- `int64(u)` -/
 def toInt64 (u : Nat) : Int := if u < 9223372036854775808 then (u : Int) else (u : Int) - 18446744073709551616
 
-/-- `valueof`: what the template prints for a constant -/
-def printed (v : Int) : Int := toInt64 (u64 v)
+/-- `valueof`: the number the template prints for a constant, by the type's signedness
+    (`strconv.FormatInt(int64(v))`, in parentheses when negative, or `strconv.FormatUint(v)`) -/
+def printed (k : Kind) (v : Int) : Int := if k.signed then toInt64 (u64 v) else (u64 v : Int)
 
 /-- insertion into a list sorted by `key` (stable: goes before equal keys; `sort.Slice` is an
     insertion sort up to 12 elements and only deterministic beyond, and with distinct keys the result is unique) -/
@@ -96,10 +97,10 @@ def sortBy (key : Const → Int) : List Const → List Const
   | [] => []
   | c :: r => insertBy key c (sortBy key r)
 
-/-- the key the code sorts by -/
-def ukey (c : Const) : Int := (u64 c.val : Int)
+/-- the key the code sorts by: `int64(value)` when the type is signed, else the uint64 pattern -/
+def skey (k : Kind) (c : Const) : Int := if k.signed then toInt64 (u64 c.val) else (u64 c.val : Int)
 
-def sortC (cs : List Const) : List Const := sortBy ukey cs
+def sortC (k : Kind) (cs : List Const) : List Const := sortBy (skey k) cs
 
 /-! ## tables -/
 
@@ -111,21 +112,21 @@ def stringsT (T : Name) (cs : List Const) : List Name := cs.map (fun c => trim T
 def stringMap (T : Name) (cs : List Const) : List (Int × Name) := cs.map (fun c => (c.val, trim T c.name))
 def valueMap (T : Name) (cs : List Const) : List (Name × Int) := cs.map (fun c => (trim T c.name, c.val))
 
-/-- `_t_max = A | B | …` (only read where every value is non-negative) -/
-def maxOr (cs : List Const) : Int := ((cs.foldl (fun a c => a ||| c.val.toNat) 0 : Nat) : Int)
+/-- `_t_max = A | B | …`, a constant of the type: bitwise OR in the kind's width, read back by the
+    kind's signedness (the OR of a negative value with anything is negative) -/
+def maxOr (k : Kind) (cs : List Const) : Int :=
+  let m : BitVec k.bits := cs.foldl (fun a c => a ||| BitVec.ofInt k.bits c.val) 0
+  if k.signed then m.toInt else (m.toNat : Int)
 
 /-- outcome of one `shoot enum -type=T` run -/
 inductive Gen where
-  | skipped                    -- no constant collected: MakeData returns nil, nothing written, exit 0
-  | formatError                -- `x[Name--1]`: format source fails, exit 1, nothing written
+  | skipped                    -- no constant collected: MakeData returns nil (a warning for a named type), nothing written, exit 0
   | file (cs : List Const)     -- the emitted tables
   deriving DecidableEq, Repr
 
-def gen (T : Name) (blocks : List (List VSpec)) : Gen :=
-  let cs := sortC (collect T blocks)
-  if cs.isEmpty then .skipped
-  else if cs.any (fun c => decide (printed c.val < 0)) then .formatError
-  else .file cs
+def gen (k : Kind) (T : Name) (blocks : List (List VSpec)) : Gen :=
+  let cs := sortC k (collect T blocks)
+  if cs.isEmpty then .skipped else .file cs
 
 /-- table identifiers the emitted file defines / reads (suffix after `_<t>`) -/
 def definedSyms : List String := ["_max", "_values", "_strings", "_string_map", "_value_map"]
@@ -145,19 +146,20 @@ inductive Str where
   | joined (ns : List Name)     -- -bit: names joined by ", "
   deriving DecidableEq, Repr
 
-/-- `func (x T) String() string` without -bit -/
-def stringOf (T : Name) (cs : List Const) (x : Int) : Str :=
+/-- `func (x T) String() string` without -bit: a table hit, else `if x < 0 || x > _max { %d }`, else
+    (nothing in between without -bit) `%d` again -/
+def stringOf (k : Kind) (T : Name) (cs : List Const) (x : Int) : Str :=
   match (stringMap T cs).lookup x with
   | some s => .name s
-  | none => if x < 0 ∨ x > maxOr cs then .dec x else .dec x
+  | none => if x < 0 ∨ x > maxOr k cs then .dec x else .dec x
 
 def isValid (T : Name) (cs : List Const) (x : Int) : Bool := ((stringMap T cs).lookup x).isSome
 
 /-- the compile-time stale guard: `_ = x[Name-valueof]` indexes a `[1]struct{}`, so the constant
     index must be 0; `cur` gives the present value of each constant in the package -/
-def guardOK (cs : List Const) (cur : Name → Option Int) : Bool :=
+def guardOK (k : Kind) (cs : List Const) (cur : Name → Option Int) : Bool :=
   cs.all (fun c => match cur c.name with
-    | some v => decide (v - printed c.val = 0)
+    | some v => decide (v - printed k c.val = 0)
     | none => false)
 
 /-! ## runtime helpers (enumer.go) over the emitted tables -/
@@ -221,7 +223,7 @@ def scan (vm : List (Name × Int)) (d : SqlIn) (target : Int) : Dec :=
 
 /-- what the three encoders put on the wire: the text of `String()` (as a JSON string, as bytes,
     as a driver.Value string) -/
-def encode (T : Name) (cs : List Const) (x : Int) : Str := stringOf T cs x
+def encode (k : Kind) (T : Name) (cs : List Const) (x : Int) : Str := stringOf k T cs x
 
 def Str.text : Str → Name
   | .name n => n
